@@ -48,6 +48,18 @@ IsWellFormedUnion(v) == v.k = "union" => (Len(v.ms) # 1 /\ NoNestedUnion(v))
 (* known to deviate (see known_findings.jsonl)                             *)
 (***************************************************************************)
 U2(a, b) == ImplUnite(<<a, b>>)
+\* TypedDict terms [k |-> "typeddict", items |-> <<[key, req, t]..>>] take part in the equality / hash / union laws only
+\* (Member and ImplCA are not defined on them yet)
+TD(items) == [k |-> "typeddict", items |-> items]
+Ent(key, req, t) == [key |-> key, req |-> req, t |-> t]
+RECURSIVE HasTD(_)
+HasTD(v) ==
+    CASE v.k = "typeddict" -> TRUE
+      [] v.k = "generic" -> \E i \in 1..Len(v.args) : HasTD(v.args[i])
+      [] v.k = "seq" -> \E i \in 1..Len(v.ms) : HasTD(v.ms[i].t)
+      [] v.k = "subclass" -> HasTD(v.t)
+      [] v.k = "union" -> \E i \in 1..Len(v.ms) : HasTD(v.ms[i])
+      [] OTHER -> FALSE
 StaticV(v) == Closed(v) => ~HasAny(v)     \* the membership laws speak about Any-free values
 
 \* Known deviation 1: a literal of an unhashable object (list/dict/set) hashes by id() (value.py:636), so
@@ -59,8 +71,8 @@ L_Assoc(a, b, c) == ImplEqV(U2(U2(a, b), c), U2(a, U2(b, c)))
                     \/ Dev_UnhashableLiteral(a) \/ Dev_UnhashableLiteral(b) \/ Dev_UnhashableLiteral(c)
 L_NoNest(a, b) == NoNestedUnion(U2(a, b))
 L_NeverId(a) == ImplEqV(U2(a, Never), a) /\ ImplEqV(U2(Never, a), a)
-L_Accepts(a, b) == (Closed(a) /\ Closed(b) /\ StaticV(a) /\ StaticV(b)) => (ImplCA(U2(a, b), a, FALSE) /\ ImplCA(U2(a, b), b, FALSE))
-L_Members(a, b) == (Closed(a) /\ Closed(b) /\ StaticV(a) /\ StaticV(b)) => Members(U2(a, b)) = Members(a) \cup Members(b)
+L_Accepts(a, b) == (Closed(a) /\ Closed(b) /\ StaticV(a) /\ StaticV(b) /\ ~HasTD(a) /\ ~HasTD(b)) => (ImplCA(U2(a, b), a, FALSE) /\ ImplCA(U2(a, b), b, FALSE))
+L_Members(a, b) == (Closed(a) /\ Closed(b) /\ StaticV(a) /\ StaticV(b) /\ ~HasTD(a) /\ ~HasTD(b)) => Members(U2(a, b)) = Members(a) \cup Members(b)
 L_EqHash(a, b) == ImplEqV(a, b) => ImplSameHash(a, b) \/ Dev_UnhashableLiteral(a)
 L_SubstClosed(a, m) == Closed(a) => ImplSubst(a, m) = a
 L_SubstAll(a, m) == FreeVars(ImplSubst(a, m)) \cap DOMAIN m = {}
@@ -82,7 +94,10 @@ AlgComposites ==
      SubclassT(Typed("int")), SubclassT(TV("T")),
      Union(<<Typed("int"), Typed("str")>>), Union(<<Typed("str"), Typed("int")>>), Union(<<Typed("int"), Known(NONE)>>),
      Union(<<Known(I1), Known(BT)>>), Union(<<Typed("int"), AnyT>>), Union(<<TV("T"), Typed("int")>>),
-     Union(<<Typed("int"), Typed("str"), Known(NONE)>>), Union(<<Known(Cont("list", <<I1>>)), Typed("int")>>)}
+     Union(<<Typed("int"), Typed("str"), Known(NONE)>>), Union(<<Known(Cont("list", <<I1>>)), Typed("int")>>),
+     TD(<<Ent("a", TRUE, Typed("int")), Ent("b", TRUE, Typed("str"))>>), TD(<<Ent("b", TRUE, Typed("str")), Ent("a", TRUE, Typed("int"))>>),
+     TD(<<Ent("a", TRUE, Typed("int"))>>), TD(<<Ent("a", TRUE, Typed("int")), Ent("b", FALSE, Typed("str"))>>),
+     Union(<<TD(<<Ent("a", TRUE, Typed("int")), Ent("b", TRUE, Typed("str"))>>), Typed("int")>>)}
 AlgSpace == AlgAtoms \cup AlgComposites
 TvMaps == {[T |-> Typed("int")], [T |-> Union(<<Typed("int"), Typed("str")>>)], [T |-> Typed("str"), S |-> Known(I1)],
            [T |-> TV("S")], [T |-> AnyT], [S |-> Typed("bool")]}
